@@ -798,6 +798,15 @@ func Run(r *report.Run) int {
 			}
 		}
 	}
+	if only := os.Getenv("VERIF_C38_ONLY"); only != "" { // development aid: "<valuetype>:<placement>" prefix filter
+		var kept []caseSpec
+		for _, c := range cases {
+			if strings.HasPrefix(fmt.Sprintf("%s:%s:%s:%s", c.VT, c.Profile, c.Scenario, c.API), only) {
+				kept = append(kept, c)
+			}
+		}
+		cases = kept
+	}
 	r.Set("planned_cases", len(cases))
 
 	leakMatrix := map[string]map[string]int{} // signature-ish cell -> outcome -> count
